@@ -100,6 +100,9 @@ fn scenario(root: &Path, folder: &str, kind: usize) -> Result<(), String> {
         // things are moved OUT of what is watched: the rename's target is nothing the watcher cares about
         12 => { let to = root.join("Legacy.moved.ts"); fs::rename(&file, &to).unwrap(); ("source file moved out of the project", cat(vec![("rename_both", vec![file.clone(), to])])) }
         13 => { let to = root.join("moved_folder"); fs::rename(&dir, &to).unwrap(); ("folder moved out of the project", cat(vec![("rename_both", vec![dir.clone(), to])])) }
+        // files that are NOT sources: another extension (with a literal inside) and binary content
+        14 => { let f = dir.join("notes.md"); write(&f, &component("Notes", "world")); ("create a non-source file (notes.md) that contains a literal", cat(vec![("create_file", vec![f])])) }
+        15 => { let f = dir.join("blob.bin"); fs::create_dir_all(&dir).unwrap(); fs::write(&f, [0xffu8, 0xfe, 0x00, 0x80]).unwrap(); ("create a binary (non-UTF-8) file blob.bin", cat(vec![("create_file", vec![f])])) }
         _ => unreachable!(),
     };
     if let Err(es) = update_sources(&mut state.db, &events) {
@@ -129,7 +132,7 @@ fn main() {
     let root = if root.is_absolute() { root } else { std::env::current_dir().unwrap().join(root) };
     let mut n = 0;
     for folder in ["pages_old", "pages.old", "api.v2", "a"] {
-        for kind in 0..14 {
+        for kind in 0..16 {
             n += 1;
             if let Err(m) = scenario(&root, folder, kind) {
                 println!("DIFFERENT: {m}");
